@@ -9,7 +9,7 @@ CONSTANTS
   LookAhead = 99
   MaxOps = 1000000
   KeepHist = FALSE
-  EdgeBounds = TRUE
+  EdgeBounds = FALSE
   KF_ScanYieldsOwnDelete = FALSE
   KF_ScanYieldsReadMissingKey = FALSE
   KF_ScanInvertedRangePanics = FALSE
